@@ -86,10 +86,17 @@ func c06Build(shape int, focus string) *c06shape {
 		return world.MakeCert(s, parent, signer)
 	}
 	tcb2Key := world.NewKey("T/tcb2")
-	s := &c06shape{both: shape == 1}
+	s := &c06shape{both: shape == 1 || shape == 3}
+	sharedSigner := shape == 3
+	if sharedSigner {
+		shape = 1
+	}
 	var poolRoot, chainRoot, tcbRoot, qeRoot, crlRoot, inter, crlInter *x509.Certificate
 	if shape == 1 {
 		s.name = "shared-root"
+		if sharedSigner {
+			s.name = "shared-root+signer"
+		}
 		if focus != "" {
 			s.name += "/first:" + focus
 		}
@@ -125,6 +132,10 @@ func c06Build(shape int, focus string) *c06shape {
 	tcbSigner := cert(world.CNTcb, pki.TcbKey, false, -2, 3, tcbRoot, pki.RootKey, false)
 	role = "qeSigner"
 	qeSigner := cert(world.CNTcb, tcb2Key, false, -3, 4, qeRoot, pki.RootKey, false)
+	qeKey := tcb2Key
+	if sharedSigner {
+		qeSigner, qeKey = tcbSigner, pki.TcbKey
+	}
 	p := w.Parts.Clone()
 	p.Chain = world.PEM(leaf, inter, chainRoot)
 	raw, _ := p.Bytes()
@@ -146,7 +157,7 @@ func c06Build(shape int, focus string) *c06shape {
 	g.Responses[world.URLTcbInfo(hexs(plat.FMSPC))] = world.Response{Header: map[string][]string{world.HdrTcbInfo: {world.IssuerChainHeader(tcbSigner, tcbRoot)}},
 		Body: world.SignedBody("tcbInfo", world.MustJSON(ti), pki.TcbKey)}
 	g.Responses[world.URLQeIdentity] = world.Response{Header: map[string][]string{world.HdrQeIdentity: {world.IssuerChainHeader(qeSigner, qeRoot)}},
-		Body: world.SignedBody("enclaveIdentity", world.MustJSON(qi), tcb2Key)}
+		Body: world.SignedBody("enclaveIdentity", world.MustJSON(qi), qeKey)}
 	g.Responses[world.URLPckCrl("platform")] = world.Response{Header: map[string][]string{world.HdrPckCrl: {world.IssuerChainHeader(crlInter, crlRoot)}},
 		Body: world.MakeCRL(world.CRLSpec{Issuer: inter, Signer: pki.InterKey, ThisUpdate: mo(-1), NextUpdate: pckCrlNU})}
 	g.Responses[world.RootCRLURL] = world.Response{Body: world.MakeCRL(world.CRLSpec{Issuer: chainRoot, Signer: pki.RootKey, ThisUpdate: mo(-1), NextUpdate: rootCrlNU})}
@@ -219,6 +230,11 @@ func runC06(r *mc.Run) {
 	}
 	for _, f := range []string{"leaf", "inter", "root", "chainRoot", "tcbSigner", "tcbRoot", "qeSigner", "qeRoot", "crlInter", "crlRoot", "tcbNext", "qeNext", "pckCrlNext", "rootCrlNext", "nb:leaf", "nb:inter", "nb:root", "nb:tcbSigner", "nb:qeSigner"} {
 		shapes = append(shapes, c06Build(2, f))
+	}
+	// Intel-like in one more respect: one TCB-signing certificate serves both JSON documents
+	shapes = append(shapes, c06Build(3, ""))
+	for _, f := range []string{"root", "tcbSigner", "nb:root", "nb:tcbSigner", "tcbNext", "qeNext"} {
+		shapes = append(shapes, c06Build(3, f))
 	}
 	for _, s := range shapes {
 		// candidate values per field
